@@ -108,6 +108,9 @@ def run(db, rep, tier):
     rep.rule("R7-owning-container", "a member container whose elements the destructor deletes is overwritten or cleared (outside constructors and "
                                     "the destructor) only after its elements were freed on that path", 2)
     r7(db, rep)
+    rep.rule("R8-tagged-storage", "PDUOption keeps `real_size_ > small_buffer_size <=> payload_ holds an owned heap block` through every special "
+                                  "member: typestate over (size class, heap ownership) on every path", 12)
+    r8(db, rep)
     controls(db, rep)
     rep.explanation = ("Decides the ownership/linking clauses of C12 that are visible in the shape of the special members and of "
                        "the child-link mutators: every pointer-owning class (found from its destructor) is checked member by "
@@ -805,6 +808,286 @@ def r7(db, rep):
                     rep.violation("R7-owning-container", key, facts.loc(f, x),
                                   "%s is %s while it may still hold elements that only ~%s deletes: every buffered element of the target is leaked "
                                   "(also on self-assignment)" % (field, how, rec.split("::")[-1]))
+    # element slots: `T*& slot = cont[key]; slot = v` must free what the slot held (or know it is null)
+    from vlib import cond as _cond
+    own_types = set()
+    for rec, field, helper in owners_:
+        r = db.records.get(rec) or {}
+        for fl in r.get("fields", []):
+            if fl["name"] == field:
+                t = facts.tyi(r, fl.get("t")) if fl.get("t") is not None else None
+                if t and t.get("name"):
+                    own_types.add(t["name"])
+    slots = 0
+    for rec in sorted(set(o[0] for o in owners_)):
+        for m in (db.records.get(rec) or {}).get("methods", []):
+            f = db.fn(m["id"])
+            if f is None or not f.get("body") or f.get("kind") == "dtor":
+                continue
+            for d in facts.fn_nodes(f):
+                if d["k"] != "VarDecl" or not d.get("c"):
+                    continue
+                t = facts.tyi(f, d.get("t")) or {}
+                if t.get("k") != "ref" or ((t.get("to") or {}).get("k") != "ptr"):
+                    continue
+                i0 = facts.strip_all(d["c"][0])
+                if not (i0["k"] == "CXXOperatorCallExpr" and i0.get("cname") == "operator[]"):
+                    continue
+                ct = facts.ty(f, i0["c"][1]) or {}
+                while ct.get("k") == "ref" and ct.get("to"):
+                    ct = ct["to"]
+                if ct.get("name") not in own_types:
+                    continue
+                g = cfg.FnCFG(f)
+                dels = [x for x in facts.fn_nodes(f) if x["k"] == "CXXDeleteExpr" and facts.strip_all(x["c"][0]).get("var") == d["var"]]
+                dpos = [q for q in (g.pos(x) for x in dels) if q]
+                for x in facts.fn_nodes(f):
+                    if x["k"] == "BinaryOperator" and x.get("op") == "=" and facts.strip_all(x["c"][0]).get("var") == d["var"]:
+                        slots += 1
+                        key = "%s::%s:slot %s#%d" % (rec.replace("Tins::", ""), f["qual"].split("::")[-1], d.get("name"), slots)
+                        null_known = False
+                        for op, l, r_ in _cond.guards_facts(g, g.pos(x)):
+                            if op == "==" and r_ is not None:
+                                for a, b in ((l, r_), (r_, l)):
+                                    if facts.strip_all(a).get("var") == d["var"] and (facts.cval(b) == 0 or is_null(b)):
+                                        null_known = True
+                            if op == "false" and facts.strip_all(l).get("var") == d["var"]:
+                                null_known = True
+                        freed = bool(dpos) and g.reached_from_entry_avoiding(g.pos(x), dpos) is None
+                        if null_known or freed:
+                            rep.ok("R7-owning-container", key, facts.loc(f, x), "slot is %s before it is overwritten" % ("null" if null_known else "deleted"))
+                        else:
+                            rep.violation("R7-owning-container", key, facts.loc(f, x),
+                                          "the element slot `%s` of an owning container is overwritten on a path where it may hold a layer that "
+                                          "was neither deleted nor known to be null: the replaced layer is leaked" % d.get("name"))
     rep.extra["owning_containers"] = ["%s::%s (freed by %s)" % (a, b, (c or "the destructor's own loop").split("(")[0]) for a, b, c in owners_]
     if not owners_:
         rep.analysis_broken("no owning container found (expected TCPStream's fragment maps)")
+
+
+# ---------------------------------------------------------------------------
+class _Tagged(object):
+    """typestate of a small-buffer-optimised option: T in S (inline) / B (heap) / ? (copied, not yet tested), H in own / none"""
+
+    def __init__(self, db, rec, small):
+        self.db, self.rec, self.small = db, rec, small
+        self.errors = []
+
+    def this_path(self, n):
+        n = facts.strip_all(n)
+        path = []
+        while n["k"] == "MemberExpr" and n.get("isfield") and n.get("c"):
+            path.append(n["member"])
+            n = facts.strip_all(n["c"][0])
+        if n["k"] == "CXXThisExpr":
+            return tuple(reversed(path))
+        return None
+
+    def tag_test(self, c):
+        """'B' if cond is true exactly for heap-class sizes of THIS object, 'S' if true exactly for inline sizes, else None"""
+        c0 = strip(c)
+        if c0["k"] == "BinaryOperator" and c0.get("op") in (">", "<=", "<", ">="):
+            l, r = c0["c"]
+            lp, rp = self.this_path(l), self.this_path(r)
+            lv, rv = facts.cval(l), facts.cval(r)
+            if lp == ("real_size_",) and rv is not None:
+                if c0["op"] == ">" and rv == self.small:
+                    return "B"
+                if c0["op"] == "<=" and rv == self.small:
+                    return "S"
+                if c0["op"] == ">=" and rv == self.small + 1:
+                    return "B"
+                if c0["op"] == "<" and rv == self.small + 1:
+                    return "S"
+            if rp == ("real_size_",) and lv is not None:
+                if c0["op"] == "<" and lv == self.small:
+                    return "B"
+                if c0["op"] == ">=" and lv == self.small:
+                    return "S"
+        if c0["k"] == "UnaryOperator" and c0.get("op") == "!":
+            t = self.tag_test(c0["c"][0])
+            return {"B": "S", "S": "B"}.get(t)
+        return None
+
+    def effects(self, f, e, st, depth):
+        """apply the effects of expression e (post-order) to state st -> list of states"""
+        states = [st]
+        for x in self.post(e):
+            nxt = []
+            for s_ in states:
+                nxt += self.effect(f, x, s_, depth)
+            states = nxt
+        return states
+
+    def post(self, e):
+        out = []
+        for c in e.get("c", []) or []:
+            if c is not None:
+                out += self.post(c)
+        out.append(e)
+        return out
+
+    def err(self, f, x, msg):
+        self.errors.append((facts.loc(f, x), msg))
+
+    def effect(self, f, x, st, depth):
+        T, H = st
+        k = x["k"]
+        if k == "CXXDeleteExpr" and self.this_path(x["c"][0]) == ("payload_", "big_buffer_ptr"):
+            if H != "own":
+                self.err(f, x, "delete[] of payload_.big_buffer_ptr on a path where no heap block is owned (size class %s)" % T)
+            return [(T, "none")]
+        if k == "BinaryOperator" and x.get("op") == "=":
+            lp = self.this_path(x["c"][0])
+            if lp == ("real_size_",):
+                v = facts.cval(x["c"][1])
+                return [(("S" if v <= self.small else "B") if v is not None else "?", H)]
+            if lp == ("payload_", "big_buffer_ptr"):
+                if H == "own":
+                    self.err(f, x, "payload_.big_buffer_ptr overwritten while it owns a heap block (leak)")
+                r0 = facts.strip_all(x["c"][1])
+                return [(T, "own" if r0["k"] == "CXXNewExpr" else "none")]
+        if k == "CallExpr" and x.get("cname") == "swap" and len(x["c"]) == 3:
+            if self.this_path(x["c"][1]) == ("payload_", "big_buffer_ptr") or self.this_path(x["c"][2]) == ("payload_", "big_buffer_ptr"):
+                if H == "own":
+                    self.err(f, x, "heap block swapped away while owned")
+                return [(T, "own")]
+        if k == "CallExpr" and x.get("cname") in ("memcpy", "memmove", "copy", "copy_n") and len(x["c"]) >= 3:
+            dp = self.this_path(x["c"][1] if x["cname"].startswith("mem") else x["c"][-1])
+            if dp == ("payload_", "small_buffer"):
+                if H == "own":
+                    self.err(f, x, "inline bytes are written over the pointer of an owned heap block (leak, and the tag/representation disagree)")
+                return [(T, "none")]
+            if dp == ("payload_", "big_buffer_ptr") and H != "own":
+                self.err(f, x, "write through payload_.big_buffer_ptr on a path where no heap block is owned")
+        if k == "CXXMemberCallExpr" and x.get("callee") and depth < 3 and x["c"] and x["c"][0].get("c") and \
+                facts.strip_all(x["c"][0]["c"][0])["k"] == "CXXThisExpr":
+            g = self.db.fn(x["callee"])
+            if g is not None and g.get("body") and g.get("rec") == self.rec and not g["qual"].split("::")[-1] in ("data_ptr", "data_size", "option", "length_field"):
+                cont, rets = self.run(g, g["body"], [st], depth + 1)
+                return cont + rets
+        if k == "CXXOperatorCallExpr" and x.get("cname") == "operator=" and x.get("callee") and depth < 3:
+            l0 = facts.strip_all(x["c"][1])
+            if l0["k"] == "UnaryOperator" and l0.get("op") == "*" and facts.strip_all(l0["c"][0])["k"] == "CXXThisExpr":
+                g = self.db.fn(x["callee"])
+                if g is not None and g.get("body"):
+                    cont, rets = self.run(g, g["body"], [st], depth + 1)
+                    return cont + rets
+        return [st]
+
+    def run(self, f, s_, states, depth=0):
+        """-> (states that continue after s_, states that returned)"""
+        if s_ is None or not states:
+            return states, []
+        k = s_["k"]
+        if k == "CompoundStmt":
+            rets = []
+            for x in s_.get("c", []):
+                states, r = self.run(f, x, states, depth)
+                rets += r
+            return states, rets
+        if k == "IfStmt":
+            real = [x for x in s_["c"] if x is not None]
+            t = self.tag_test(real[0])
+            out, rets = [], []
+            for st in states:
+                pre = self.effects(f, real[0], st, depth)
+                for (T, H) in pre:
+                    if t is None:
+                        arms = [((T, H), True), ((T, H), False)]
+                    elif T in ("S", "B"):
+                        arms = [((T, H), T == t)]
+                    else:
+                        arms = [((t, H), True), (({"B": "S", "S": "B"}[t], H), False)]
+                    for st2, taken in arms:
+                        if taken:
+                            c, r = self.run(f, real[1], [st2], depth)
+                        elif len(real) > 2:
+                            c, r = self.run(f, real[2], [st2], depth)
+                        else:
+                            c, r = [st2], []
+                        out += c
+                        rets += r
+            return list(set(out)), list(set(rets))
+        if k == "ReturnStmt":
+            out = []
+            for st in states:
+                out += self.effects(f, s_, st, depth) if s_.get("c") else [st]
+            return [], out
+        if k == "CXXThrowExpr" or (k == "ExprWithCleanups" and s_["c"][0]["k"] == "CXXThrowExpr"):
+            return [], []
+        if k in ("WhileStmt", "ForStmt", "DoStmt", "CXXForRangeStmt"):
+            body = [x for x in s_["c"] if x is not None][-1]
+            c, r = self.run(f, body, states, depth)
+            return list(set(states + c)), r
+        if k in ("DeclStmt", "NullStmt"):
+            out = []
+            for st in states:
+                out += self.effects(f, s_, st, depth)
+            return list(set(out)), []
+        if k == "CXXTryStmt":
+            return self.run(f, s_["c"][0], states, depth)
+        out = []
+        for st in states:
+            out += self.effects(f, s_, st, depth)
+        return list(set(out)), []
+
+
+def r8(db, rep):
+    recs = sorted(r for r in db.records if r.startswith("Tins::PDUOption<") and "::(anonymous)" not in r)
+    if not recs:
+        rep.analysis_broken("no PDUOption instantiation found")
+        return
+    done = 0
+    for rec in recs[:3]:
+        r = db.records[rec]
+        small = None
+        for st_ in r.get("statics", []):
+            if st_["name"] == "small_buffer_size" and "v" in st_:
+                small = int(st_["v"])
+        if small is None:
+            rep.analysis_broken("%s: small_buffer_size not found" % rec)
+            continue
+        for m in r["methods"]:
+            f = db.fn(m["id"])
+            if f is None or not f.get("body"):
+                continue
+            kind = f.get("kind")
+            sp = f.get("special")
+            if not (kind in ("ctor", "dtor") or sp in ("copy_assign", "move_assign")):
+                continue
+            an = _Tagged(db, rec, small)
+            if kind == "ctor":
+                entry = [("?", "none")]
+            else:
+                entry = [("B", "own"), ("S", "none")]
+            # constructor initialisers may set real_size_
+            for i in f.get("inits", []):
+                if i.get("member") == "real_size_" and i.get("written"):
+                    v = facts.cval(i["e"])
+                    entry = [(("S" if v <= small else "B") if v is not None else "?", "none")]
+            cont, rets = an.run(f, f["body"], entry)
+            finals = set(cont + rets)
+            key = "%s::%s%s" % (rec.replace("Tins::", ""), f["qual"].split("::")[-1], ":" + sp if sp else "(%d)" % len(f["params"]))
+            bad = None
+            if an.errors:
+                bad = "%s [%s]" % (an.errors[0][1], an.errors[0][0])
+            for (T, H) in sorted(finals):
+                if bad:
+                    break
+                if kind == "dtor":
+                    if H == "own":
+                        bad = "the destructor can return with the heap block still owned (size class %s)" % T
+                elif T == "?":
+                    bad = ("a path ends with real_size_ copied from the source but the storage never chosen by it (heap block %s): if the "
+                           "source is in the other size class, data_ptr() reads the bytes of a pointer as payload / frees inline bytes"
+                           % ("still owned" if H == "own" else "absent"))
+                elif (T == "B") != (H == "own"):
+                    bad = "a path ends with size class %s but heap ownership '%s'" % ({"B": "heap", "S": "inline"}[T], H)
+            done += 1
+            if bad:
+                rep.violation("R8-tagged-storage", key, facts.loc(f), bad)
+            else:
+                rep.ok("R8-tagged-storage", key, facts.loc(f), "all %d end states consistent" % len(finals))
+    if done < 12:
+        rep.analysis_broken("only %d PDUOption special members analysed" % done)
